@@ -42,6 +42,16 @@ DETECT = {   # name: (check id, caught by (target signature config), first resul
  "C06c": ("C06", "rw_xv blocked-forever (q:W|w:tdev, q:W|x,s)", "caught at once"),
  "C19c": ("C19", "oc_xv recycle-wrong-object (generated gen3x1, gen2x2)", "caught at once"),
  "C20": ("C20", "subfs escape", "caught at once"),
+ "C09c": ("C09", "go_sv blocked-with-partner (cap0:S1,S1,R1,R1:b:pad2), go_xv lost-wakeup (0:s,s|r,r)", "caught at once"),
+ "C10c": ("C10", "sock_sv lost-write-event (cap2:s4:c:d:et)", "caught at once (same change as own-C10-et, found independently)"),
+ "C11c": ("C11", "skel_sv response-bytes-interleaved (n2, n3)", "missed at first (no server-side harness); caught after adding the target skel_sv"),
+ "C12b": ("C12", "ser field-outside-input / asan:heap-buffer-overflow", "caught at once"),
+ "C13b": ("C13", "http written-message-rejected / written-body-read-back-differs / truncated-body-not-a-payload-prefix; http_rxbuf_nonul valid-message-rejected", "caught at once"),
+ "C14b": ("C14", "seq memcpy_to_buf:return / memcpy_from_buf:return / pipe_to_iovector:return / pipe_from_iovector:return", "caught at once"),
+ "C15b": ("C15", "rsplit class-small_note / aligned_parts-endless / all_parts-endless / empty-range-nonempty-part", "caught at once (through the empty range and the part lists); class-definition oracle added for the misclassification itself"),
+ "C16b": ("C16", "composite linear:read-count / linear:write-count / stripe:read-count / stripe:write-count", "caught at once"),
+ "C20b": ("C20", "subfs escape", "caught at once"),
+ "C04c": ("C04", "SEED_C04C", "SEED_C04C_HIST"),
 }
 for d in sorted(glob.glob(os.path.join(V, "seeded", "C*"))):
     name = os.path.basename(d)
@@ -59,7 +69,13 @@ for d in sorted(glob.glob(os.path.join(V, "seeded", "C*"))):
             if os.path.exists(fp):
                 mm = re.findall(r"demo exit code: (\d+)", open(fp, errors="replace").read())
                 if mm: out[key] = int(mm[-1])
-        out["confirmed_by"] = "tools/confirm_seed.sh: full pinned suite with the patch in a scratch worktree (fails only the baseline's always-failing binaries), demo fails with / passes without the patch"
+        if "confirm (incremental" in t:
+            out.pop("suite_extra_failures_in_parallel_run", None); out.pop("suite_failures_after_rerunning_alone", None)
+            m = re.search(r"ctest -R '(.*?)'", t); out["tests_run_with_patch"] = m.group(1) if m else None
+            m = re.search(r"(\d+)% tests passed, (\d+) tests failed out of (\d+)", t); out["tests_result_with_patch"] = m.group(0) if m else None
+            out["confirmed_by"] = "tools/confirm_seed_inc.sh: everything rebuilt with the patch in a scratch worktree, the test binaries that exercise the touched files run (selected by the regex; the sub-agent's own runs are listed in meta.json), demo fails with / passes without the patch"
+        else:
+            out["confirmed_by"] = "tools/confirm_seed.sh: full pinned suite with the patch in a scratch worktree (fails only the baseline's always-failing binaries), demo fails with / passes without the patch"
     else:
         out["confirmed_by"] = "pending (confirm_seed.sh not run yet)"
     if name in DETECT:
